@@ -176,6 +176,7 @@ func (queue *FileQueue) emptyFile(path string) {
 		if err != nil {
 			log.Errorf("del file: %s err", path)
 		} else {
+			verifCrashPoint("wal.removed")
 			FileUtilsCreateFile(path)
 			queue.Offset = 0
 		}
